@@ -125,10 +125,10 @@ func init() {
 	p := &mon.Property{
 		ID: "C06",
 		Rule: "cases are list-mode array pairs: every pair over {1,2,3} up to length 4 (quick) / 5 (thorough) and over {1,2} up to length 7 (thorough) at four nesting positions, " +
-			"random long arrays (<=40) over tiny alphabets, arrays mixing scalars with aligned same-kind containers that differ inside, and random nested documents (context only); " +
+			"random long arrays (<=40) over tiny alphabets, arrays of 100-600 elements with a few localised edits, arrays mixing scalars with aligned same-kind containers that differ inside, and random nested documents (context only); " +
 			"oracle: textbook LCS DP for the edit counts, stepwise reference interpretation for the context lines; non-trivial = non-empty diff; distinct = distinct (a, b)",
 		Floors: map[string]int{"index_hunks": 20000, "before_is_element": 5000, "before_is_boundary": 5000, "after_is_element": 5000, "after_is_boundary": 5000,
-			"long_array": 2000, "mixed_recursed": 500, "hunk_nested_arrays": 2000},
+			"long_array": 2000, "very_long_array": 1000, "mixed_recursed": 500, "hunk_nested_arrays": 2000},
 		Assumptions: []string{
 			"minimality is a count against the optimum (len - LCS on each side), not identity of the script: several optimal scripts exist",
 			"for arrays holding containers only the upper bound is demanded (recursing removes fewer elements than an LCS over whole values)",
@@ -169,6 +169,46 @@ func init() {
 				b = mutateScalarArray(c.R, prof, a)
 			}
 			c06Judge(c, a, b, i%4, true)
+		},
+	})
+	p.Strata = append(p.Strata, mon.Stratum{
+		Name: "long-arrays-localised-edits",
+		N:    qt(1500, 30000),
+		Run: func(c *mon.Ctx, i int) {
+			// arrays of 100-600 elements with a few edits near the head, the tail and in between
+			k := []int{3, 8, 40, 1000}[i%4]
+			alpha := make([]any, k)
+			for j := range alpha {
+				alpha[j] = float64(j)
+			}
+			prof := gen.PTiny.With(func(p *gen.Profile) { p.Scalars = alpha })
+			n := c.R.Range(100, 600)
+			a := gen.Array(c.R, prof, n, 0)
+			b := append([]any{}, a...)
+			for e := c.R.Range(2, 5); e > 0; e-- {
+				var pos int
+				switch c.R.Intn(3) {
+				case 0:
+					pos = c.R.Intn(5)
+				case 1:
+					pos = len(b) - 1 - c.R.Intn(5)
+				default:
+					pos = c.R.Intn(len(b))
+				}
+				if pos < 0 {
+					pos = 0
+				}
+				switch c.R.Intn(3) {
+				case 0:
+					b = append(append(append([]any{}, b[:pos]...), "new"), b[pos:]...)
+				case 1:
+					b = append(append([]any{}, b[:pos]...), b[pos+1:]...)
+				default:
+					b[pos] = "changed"
+				}
+			}
+			c.Feature("very_long_array")
+			c06Judge(c, a, b, i%2, true)
 		},
 	})
 	p.Strata = append(p.Strata, mon.Stratum{
